@@ -671,7 +671,7 @@ class SymEx:
             # containers built on this path and held in a field (self.table = {} ... self.table[k] = v in the loop) are carried like local ones
             cbases = set()
             for p in probe:
-                for e in p.flat_events(False):
+                for e in p.flat_events(True):
                     if e.kind == 'write' and e.how == 'assign' and not e.d.get('local') and e.loc[0] == 'sub' and e.loc[1] in x.heap and _is_local_container(x.heap[e.loc[1]]):
                         cbases.add(e.loc[1])
             cbases -= written
@@ -707,6 +707,16 @@ class SymEx:
                         c_ = normal[0].conds[0][0]
                         dt_, df_ = (deltas[0], deltas[1]) if normal[0].conds[0][1] else (deltas[1], deltas[0])
                         y.env[n] = T.t_add(x.env[n], ('sum', lid, ('ite', c_, dt_, df_)))
+                    elif deltas and all(d is not None for d in deltas) and len([d for d in deltas if d != ZERO]) >= 1 and \
+                            all(T.teq(d, [d_ for d_ in deltas if d_ != ZERO][0]) for d in deltas if d != ZERO) and not any(c[0][0] == 'exc' for p in normal for c in p.conds):
+                        # `if c1 and c2 (a chained comparison, nested ifs): acc += a`: one contribution under the disjunction of the paths that add it
+                        conjs = []
+                        for p, d in zip(normal, deltas):
+                            if d != ZERO:
+                                cs_ = tuple((c if b_ else mk_not(c)) for c, b_, _ in p.conds)
+                                conjs.append(('and', cs_) if len(cs_) > 1 else (cs_[0] if cs_ else TRUE))
+                        guard = ('or', tuple(conjs)) if len(conjs) > 1 else conjs[0]
+                        y.env[n] = T.t_add(x.env[n], ('sum', lid, ('ite', guard, [d_ for d_ in deltas if d_ != ZERO][0], ZERO)))
                     elif vals and all(v is not None and _rooted(v, ('lc', n, lid)) for v in vals):
                         cmp_ = self._accum_to_comp(lid, x.env[n], paths, n, it, is_for)
                         y.env[n] = cmp_ if cmp_ is not None else ('accum', lid, x.env[n], tuple(vals))
@@ -1490,7 +1500,7 @@ class SymEx:
                 out.append((s, default))
             else:
                 y = s.ev(Ev('raise', exc='KeyError', site=self.site(node), fn=self.fn.qn, args=(i,)))
-                y.exc = ('raise', 'KeyError', self.site(node), self.fn.qn)
+                y.exc = ('raise', 'KeyError', self.site(node), self.fn.qn, self.fn.cls.name if self.fn.cls is not None else None, 'table-miss')
                 out.append((y, ZERO))
         return out
 
